@@ -174,6 +174,24 @@ def run(ctx):
     com_end = {c for c in ALPHABET if scripted(com, [], c, lexenv(59))[0] != "more"}
     ctx.inst("C06-charclass", "comment/terminators", sorted(com_end))
     if not com_end or not com_end <= R7RS_WS or 10 not in com_end:
+        # (the scripted run of `comment` answers peeks and advances; a scanner that takes characters another way is asked through the
+        # whole lexer instead: a comment ends at c when the token after `; x` c is read)
+        from . import lexrun as _lx2
+        com_end2, stuck_ = set(), False
+        for c_ in sorted(ALPHABET):
+            toks_ = _lx2.lex(fb, "; x" + chr(c_) + "m1 ")
+            if toks_ and toks_[-1][0] in ("stuck", "panic"):
+                stuck_ = True
+                break
+            if any(t_[0] == "Identifier" and t_[1] == "m1" for t_ in toks_):
+                com_end2.add(c_)
+        if stuck_:
+            ctx.undecided("C06-charclass", "comment/terminators", "the comment scanner cannot be followed", where_of(com))
+            com_end = {10}
+        else:
+            com_end = com_end2
+            ctx.inst("C06-charclass", "comment/terminators/whole-lexer", sorted(com_end))
+    if not com_end or not com_end <= R7RS_WS or 10 not in com_end:
         ctx.report("C06-charclass", "comment/terminators", "comments end at %s (must include LF and be line endings)" % sorted(com_end), where_of(com))
     td = fb.find(LEX + "test_delimiter")
     delim = set()
@@ -343,8 +361,18 @@ def run(ctx):
                     cs = {x.split("::{closure")[0] for x in callers_.get(nm, ())} - {nm}
                     return depth > 0 and bool(cs) and all(only_from_advance(x, depth - 1) for x in cs)
                 if owner != adv.name and owner.startswith("parser::lexer::") and not only_from_advance(owner):
-                    ctx.report("C06-position", "consumer/" + owner, "%s consumes a character without Lexer::advance (position "
-                               "not updated)" % owner, where_of(f, t))
+                    # a scanner that takes characters itself has to keep the position itself: decided by where the whole lexer puts the
+                    # tokens of the layout texts (strings, |identifiers| and comments that span lines, CRLF, tabs, blank lines)
+                    from . import lexrun as _lx
+                    tv = _lx.token_locations_verdict(fb)
+                    if tv is True:
+                        ctx.inst("C06-position", "consumer/" + owner + "/keeps-the-position-itself", {"token_locations": "as expected"})
+                    elif tv is None:
+                        ctx.undecided("C06-position", "consumer/" + owner, "%s consumes characters without Lexer::advance and the lexer cannot "
+                                      "be followed on the layout texts that would show whether it keeps the position itself" % owner, where_of(f, t))
+                    else:
+                        ctx.report("C06-position", "consumer/" + owner, "%s consumes a character without Lexer::advance and the position is "
+                                   "not kept: the tokens m1 m2 m3 of %r are located %s, expected %s" % (owner, tv[1], tv[2], tv[3]), where_of(f, t))
     # decision table of advance(1) by abstract evaluation of the whole function (helpers followed): position after a character
     from . import machine
     lx = fb.adt("parser::lexer::Lexer")["variants"][0]["fields"]
